@@ -9,7 +9,18 @@ Every case is a SESSION on one `Network` object: a graph with node positions and
 A node argument is "3" (the id), "o3" (the network's Node object) or "f3" (a fresh Node object with that id); "scribble": every returned track is modified by the caller afterwards;
 `d` = 1: the session's output_dict is passed. Cases without "ops" query every ordered pair with `shortest_path`
 (s-major) on the same object; "seq": "euler" = a sequence of `shortest_path` calls in which every ordered pair of
-queries occurs consecutively."""
+queries occurs consecutively.
+
+Cases with "mut": 1 MODIFY the network between the calls (kind "mut" / "mut-float"); their ops also contain
+    ["W", id, w, how]          the weight of edge `id` becomes w (how 0: getEdge(id).weight = w, 1: net[k].weight = w, 2: EDGES[id].weight = w)
+    ["G", id, line, how]       the polyline of edge `id` becomes `line` (how 0: getEdge(id).geom = Track(...), 1: its points are moved in place
+                               when the number of vertices allows it)
+    ["C", v, x, y, how]        node v moves to (x, y) (how 0: getNode(v).coord = ENUCoords(...), 1: the coordinate object is moved in place)
+    ["E", [id,s,t,w,o], line, [sx,sy,tx,ty]]   addEdge(edge, Node(s, (sx,sy)), Node(t, (tx,ty))) on the built network
+    ["N", v, x, y]             addNode(Node(v, (x,y)))
+    ["O", id, o]               getEdge(id).orientation = o   (generated only when the finding ORI_FROZEN is listed, see classify)
+"late": nodes that the build does not register (no initial edge): they enter the network by an E / N op. The oracle replays
+the modifications on its own copy of the content (`Content`) and judges every query against the content of THAT moment."""
 import itertools, os, tempfile
 from fractions import Fraction
 from engine import Prop, fbits, bitsf
@@ -17,6 +28,11 @@ from props import netcommon as nc
 
 
 TOL = Fraction(1, 10**9)
+
+
+def alt(x, y):
+    """the altitude given to every vertex and node at (x, y): the returned geometry must carry it along"""
+    return 100 + 3 * x - 2 * y
 
 
 def cutval(tokn, fl=False):
@@ -137,8 +153,9 @@ def build_calls(case):
         seen.add(v)
         return list(pos[v])
     pre, ends, post = [], [], []
+    late = set(case.get("late", []))
     if build in ("plain", "fresh"):
-        pre = [[v] + coord(v) for v in case["order"]]
+        pre = [[v] + coord(v) for v in case["order"] if v not in late]
     for k, (i, s, t, w, o) in enumerate(edges):
         if build == "reader":
             l = case["lines"][k]
@@ -150,7 +167,7 @@ def build_calls(case):
             cs = coord(s)
             ends.append(cs + coord(t))
     if build in ("lazy", "reader"):
-        post = [[v] + coord(v) for v in case["order"]]
+        post = [[v] + coord(v) for v in case["order"] if v not in late]
     return {"pre": pre, "ends": ends, "post": post}
 
 
@@ -171,8 +188,8 @@ def build_net(mods, case):
     nid = (lambda v: chr(65 + v)) if strids else (lambda v: v)
     eid = (lambda i: "e%d" % i) if strids else (lambda i: i)
     pos = case["pos"]
-    mk = lambda v: Node(nid(v), ENUCoords(pos[v][0], pos[v][1], 0))
-    mkc = lambda v, x, y: Node(nid(v), ENUCoords(x, y, 0))
+    mk = lambda v: Node(nid(v), ENUCoords(pos[v][0], pos[v][1], alt(pos[v][0], pos[v][1])))
+    mkc = lambda v, x, y: Node(nid(v), ENUCoords(x, y, alt(x, y)))
     calls = build_calls(case)
     if build == "reader":
         from tracklib.io import NetworkReader, NetworkFormat
@@ -183,7 +200,7 @@ def build_net(mods, case):
             with open(path, "w") as fh:
                 fh.write("edge;source;target;wkt;weight;direction\n")
                 for k, (i, s, t, w, o) in enumerate(nc.expand(case)):
-                    fh.write("%s;%s;%s;LINESTRING(%s);%r;%d\n" % (eid(i), nid(s), nid(t), ", ".join("%r %r" % (float(x), float(y)) for x, y in case["lines"][k]),
+                    fh.write("%s;%s;%s;LINESTRING(%s);%r;%d\n" % (eid(i), nid(s), nid(t), ", ".join("%r %r %r" % (float(x), float(y), float(alt(x, y))) for x, y in case["lines"][k]),
                                                                float(nc.pynum(w)), o))
             net = NetworkReader.readFromFile(path, fmt, verbose=False)
         for (v, x, y) in calls["post"]:
@@ -195,7 +212,7 @@ def build_net(mods, case):
         nodes[v] = mkc(v, x, y)
         net.addNode(nodes[v])
     for k, (i, s, t, w, o) in enumerate(nc.expand(case)):
-        tr = Track([Obs(ENUCoords(x, y, 0), ObsTime()) for (x, y) in case["lines"][k]])
+        tr = Track([Obs(ENUCoords(x, y, alt(x, y)), ObsTime()) for (x, y) in case["lines"][k]])
         if case.get("af") and len(case["lines"][k]) > 0:
             tr.createAnalyticalFeature("speed", 1.0)
         e = Edge(eid(i), tr)
@@ -269,7 +286,7 @@ def add_parallels(rng, g):
     return g
 
 
-def random_ops(rng, n, d, fl=False):
+def random_ops(rng, n, d, fl=False, nodes=None, blocks=None):
     """a sequence of calls: single queries, the same query twice, a path after a distance-only search and vice versa,
     backward passes for several targets after one search, an unreachable target after a reachable one, source = target,
     cut-offs below / at / above distances"""
@@ -280,11 +297,12 @@ def random_ops(rng, n, d, fl=False):
     form = lambda v: rng.choice(["", "", "", "o", "f"]) + str(v)
     cut = lambda: "none" if rng.random() < 0.55 else rng.choice(cuts)
     ud = lambda: 1 if rng.random() < 0.3 else 0
-    node = lambda: rng.randrange(n)
-    reach = [(s, t) for s in range(n) for t in range(n) if s != t and d[s][t] is not None]
-    unreach = [(s, t) for s in range(n) for t in range(n) if d[s][t] is None]
+    node = (lambda: rng.randrange(n)) if nodes is None else (lambda: rng.choice(nodes))
+    pool = range(n) if nodes is None else nodes
+    reach = [(s, t) for s in pool for t in pool if s != t and d[s][t] is not None]
+    unreach = [(s, t) for s in pool for t in pool if d[s][t] is None]
     ops = []
-    for _ in range(rng.randint(2, 6)):
+    for _ in range(rng.randint(2, 6) if blocks is None else blocks):
         r = rng.random()
         s, t = node(), node()
         if reach and rng.random() < 0.6:
@@ -322,6 +340,257 @@ def random_ops(rng, n, d, fl=False):
     return ops
 
 
+# ------------------------------------------------------------------------------------ networks modified between the calls
+MUTATIONS = ("W", "O", "G", "C", "E", "N")
+ORI_FROZEN = "orientation-frozen-at-addEdge"
+
+
+class Content:
+    """What the network holds after the build and the modifications so far, replayed from the case alone (never read from
+    tracklib): registered nodes with their positions (the FIRST registration of an id wins), the edges with their current
+    attributes, their polylines. `version` counts the modifications."""
+
+    def __init__(self, case, frozen_ori=False):
+        calls = build_calls(case)
+        self.frozen_ori = frozen_ori          # keep the orientations the edges were added with (see P.classify)
+        self.n = case["n"]
+        self.pos, self.order, self.edges, self.lines = {}, [], [], {}
+        self.version = 0
+        self.ori_set = set()          # edges whose orientation attribute was assigned after addEdge
+        self._d = None
+        for (v, x, y) in calls["pre"]:
+            self.add_node(v, x, y)
+        for k, e in enumerate(nc.expand(case)):
+            self.add_edge(e, case["lines"][k], calls["ends"][k])
+        for (v, x, y) in calls["post"]:
+            self.add_node(v, x, y)
+
+    def add_node(self, v, x, y):
+        if v not in self.pos:
+            self.pos[v] = [x, y]
+            self.order.append(v)
+
+    def add_edge(self, e, line, ends):
+        self.add_node(e[1], ends[0], ends[1])
+        self.add_node(e[2], ends[2], ends[3])
+        self.edges.append(list(e))
+        self.lines[e[0]] = [list(q) for q in line]
+
+    def edge(self, i):
+        for e in self.edges:
+            if e[0] == i:
+                return e
+        return None
+
+    def apply(self, op):
+        """a modification; False when the op is a routing call or names something that does not exist"""
+        k = op[0]
+        if k not in MUTATIONS:
+            return False
+        if k == "N":
+            self.add_node(op[1], op[2], op[3])
+        elif k == "E":
+            if self.edge(op[1][0]) is not None:
+                return False
+            self.add_edge(op[1], op[2], op[3])
+        elif k == "C":
+            if op[1] not in self.pos:
+                return False
+            self.pos[op[1]] = [op[2], op[3]]
+        else:
+            e = self.edge(op[1])
+            if e is None:
+                return False
+            if k == "W":
+                e[3] = op[2]
+            elif k == "O":
+                if not self.frozen_ori:
+                    e[4] = op[2]
+                self.ori_set.add(op[1])
+            else:
+                self.lines[op[1]] = [list(q) for q in op[2]]
+        self.version += 1
+        self._d = None
+        return True
+
+    @property
+    def d(self):
+        if self._d is None:
+            self._d = nc.floyd_warshall(self.n, self.edges)
+        return self._d
+
+    def frozen(self):
+        """a copy that later modifications do not touch"""
+        c = Content.__new__(Content)
+        c.n, c.version, c._d, c.frozen_ori = self.n, self.version, self._d, self.frozen_ori
+        c.pos = {v: list(q) for v, q in self.pos.items()}
+        c.order = list(self.order)
+        c.edges = [list(e) for e in self.edges]
+        c.lines = {i: [list(q) for q in l] for i, l in self.lines.items()}
+        c.ori_set = set(self.ori_set)
+        return c
+
+    def joined(self, i):
+        """the polyline of edge i runs from its source's position to its target's"""
+        e, l = self.edge(i), self.lines[i]
+        return len(l) > 0 and l[0] == self.pos[e[1]] and l[-1] == self.pos[e[2]]
+
+
+def timeline(case, frozen_ori=False):
+    """per op: (the content the op finds, stale) — stale: the network was modified since the last search (what
+    run_routing_backward then returns mixes the old flags with the new content: nothing is stated about it).
+    Cases that do not modify the network share one Content."""
+    ops = ops_of(case)
+    c = Content(case, frozen_ori)
+    if not case.get("mut"):
+        return [(c, False)] * len(ops)
+    out, stale, cur = [], False, c.frozen()
+    for op in ops:
+        out.append((cur, stale))
+        if op[0] in MUTATIONS:
+            if c.apply(op):
+                stale = True
+                cur = c.frozen()
+        elif op[0] != "B":
+            stale = False
+    return out
+
+
+def mkline(rng, ps, pt, box=3):
+    """a polyline from ps to pt: 1-5 vertices, as geometry_ext draws them"""
+    q = lambda: [rng.randint(-1, box + 1), rng.randint(-1, box + 1)]
+    r = rng.random()
+    if ps == pt and r < 0.2:
+        return [list(ps)]
+    if r < 0.45:
+        return [list(ps), list(pt)]
+    if r < 0.75:
+        return [list(ps), q(), list(pt)]
+    if r < 0.85:
+        m = q()
+        return [list(ps), m, m, list(pt)]
+    if r < 0.93:
+        return [list(ps), list(pt), q(), list(pt)]
+    return [list(ps), q(), q(), list(pt)]
+
+
+def new_weight(rng, old, fl=False):
+    if fl:
+        o = float(old)
+        return rng.choice([0.0, 0.1, 0.3, 0.7, o * 1.5 + 0.1, o / 3, rng.random() * 10, o + 50.0])
+    o = Fraction(nc.num(old))
+    w = rng.choice([0, 0, 1, 2, 3, 5, 7, 10, 50, o + 1, o * 2, o + Fraction(1, 2), o / 2, max(o - 1, 0)])
+    w = Fraction(w)
+    if w.denominator not in (1, 2, 4, 8):
+        w = Fraction(int(w))
+    return int(w) if w.denominator == 1 else nc.tok(w)
+
+
+def one_mutation(rng, c, case, fl=False, with_ori=False):
+    """ops (usually one) that modify the content c; weights most often, on an edge of some current optimal route half of the time"""
+    r = rng.random()
+    reg = list(c.order)
+    late = [v for v in case.get("late", []) if v not in c.pos]
+    if late and r < 0.25:
+        r = 0.9 if rng.random() < 0.7 else 0.99
+    if c.edges and r < 0.5:
+        d = c.d
+        tight = [e for e in c.edges for (u, v) in ((e[1], e[2]), (e[2], e[1]))
+                 if any(d[s][u] is not None and d[s][v] is not None and d[s][u] + nc.num(e[3]) == d[s][v] and s != v for s in reg)]
+        e = rng.choice(tight) if tight and rng.random() < 0.5 else rng.choice(c.edges)
+        return [["W", e[0], new_weight(rng, e[3], fl), rng.choice([0, 0, 1, 2])]]
+    if c.edges and with_ori and r < 0.58:
+        e = rng.choice(c.edges)
+        return [["O", e[0], rng.choice([x for x in (-1, 0, 1) if x != e[4]])]]
+    if c.edges and r < 0.68:
+        e = rng.choice(c.edges)
+        if rng.random() < 0.15:
+            line = [[rng.randint(-1, 4), rng.randint(-1, 4)] for _ in range(rng.choice([0, 1, 2, 3]))]      # ignores the node positions
+        else:
+            line = mkline(rng, c.pos[e[1]], c.pos[e[2]])
+        return [["G", e[0], line, rng.choice([0, 1])]]
+    if reg and r < 0.8:
+        v = rng.choice(reg)
+        x, y = rng.randint(0, 3), rng.randint(0, 3)
+        how = rng.choice([0, 1])
+        out = [["C", v, x, y, how]]
+        if rng.random() < 0.8:            # the junction moves: the polylines that end there follow
+            for e in c.edges:
+                if v in (e[1], e[2]):
+                    l = [list(q) for q in c.lines[e[0]]] or [[x, y]]
+                    if len(l) == 1 and e[1] != e[2]:
+                        l = [list(c.pos[e[1]]), list(c.pos[e[2]])]
+                    if e[1] == v:
+                        l[0] = [x, y]
+                    if e[2] == v:
+                        l[-1] = [x, y]
+                    out.append(["G", e[0], l, rng.choice([0, 1])])
+        return out
+    if r < 0.97 or not late:
+        pool = reg + late
+        if not pool:
+            return []
+        s = rng.choice(pool)
+        t = rng.choice(pool) if rng.random() < 0.9 else s
+        if late and rng.random() < 0.6:
+            t = rng.choice(late)
+            if rng.random() < 0.5:
+                s, t = t, s
+        if c.edges and rng.random() < 0.25:          # parallel to an existing edge (either way round)
+            _, s, t, _, _ = rng.choice(c.edges)
+            if rng.random() < 0.5:
+                s, t = t, s
+        i = max([e[0] for e in c.edges] + [0]) + 1 + rng.randrange(3)
+        if fl:
+            w = rng.choice([0.0, 0.1, 0.2, 0.3, rng.random() * 5])
+        else:
+            w = rng.choice([0, 0, 1, 1, 2, 3, 5, "1/2", "3/2"])
+        o = rng.choice([-1, 0, 0, 1, 1])
+        ps = c.pos.get(s, case["pos"][s])
+        pt = c.pos.get(t, case["pos"][t])
+        ends = list(ps) + list(pt)
+        if rng.random() < 0.15:           # Node objects of registered ids carrying other coordinates: the first registration wins
+            ends = [ends[0] + (9 if s in c.pos else 0), ends[1], ends[2], ends[3] - (4 if t in c.pos else 0)]
+        return [["E", [i, s, t, w, o], mkline(rng, ps, pt), ends]]
+    v = rng.choice(late + reg) if rng.random() < 0.8 else rng.choice(late)
+    q = case["pos"][v]
+    if v in c.pos and rng.random() < 0.5:
+        q = [q[0] + 5, q[1] + 5]            # ignored: the id is registered
+    return [["N", v, q[0], q[1]]]
+
+
+def random_mut_ops(rng, case, fl=False, with_ori=False):
+    """routing calls interleaved with modifications of the network; every modification is followed (sooner or later) by queries"""
+    c = Content(case)
+    ops = []
+
+    def queries():
+        reg = list(c.order)
+        if not reg:
+            return
+        if rng.random() < 0.75:
+            d = c.d
+            reach = [(s, t) for s in reg for t in reg if s != t and d[s][t] is not None]
+            for _ in range(rng.randint(1, 3)):
+                s, t = rng.choice(reach) if reach and rng.random() < 0.8 else (rng.choice(reg), rng.choice(reg))
+                form = lambda v: rng.choice(["", "", "", "o", "f"]) + str(v)
+                ops.append(["P", form(s), form(t), "none", 1 if rng.random() < 0.15 else 0])
+        else:
+            ops.extend(random_ops(rng, c.n, c.d, fl=fl, nodes=reg, blocks=rng.randint(1, 2)))
+
+    if rng.random() < 0.75:
+        queries()
+    for _ in range(rng.randint(1, 4)):
+        for _ in range(rng.choice([1, 1, 1, 2, 3])):
+            for m in one_mutation(rng, c, case, fl, with_ori):
+                if c.apply(m):
+                    ops.append(m)
+        if rng.random() < 0.1 and c.order:
+            ops.append(["B", str(rng.choice(c.order))])        # a backward pass on stale flags
+        queries()
+    return ops
+
+
 class P(Prop):
     id = "C07"
     design_ref = "DESIGN.md section 5, C07"
@@ -348,26 +617,47 @@ class P(Prop):
         (M, "TV.C07.next_edges_as_built", "for a network built by addEdge calls: EDGES = the edges in insertion order; NEXT_EDGES[u] looked up in EDGES = every edge that may be left from u, a two-way self-loop twice; the relaxation loop over it = the loop over the model's nextEdges (each edge once)"),
         (M, "TV.C07.first_registration_wins", "a node's position is the coordinate of its first registration (addNode / addEdge with other Node objects of the same id do not change it); addEdge registers both ends"),
         (M, "TV.C07.backward_after_full_search", "after a search without target and cut-off (shortest_distance(s) / run_routing_forward(s)), run_routing_backward(t) = None iff t unreachable or t = s, else a route s->t realising the true distance"),
+        (M, "TV.C07.mut_path_fresh", "on a network built AND MODIFIED by any sequence of calls (addNode / addEdge also after searches, getEdge(i).weight = w, new polylines, moved nodes, any routing calls in between; no orientation assignment) shortest_path(s,t,cut) = shortest_path on a fresh network holding the CURRENT nodes, edges, weights, polylines and coordinates"),
+        (M, "TV.C07.mut_path_optimal", "after any such history shortest_path(s,t) never diverges, is None iff t is unreachable in the current network or t = s, else the chain of a route of the current network whose current weights sum to the current shortest distance"),
+        (M, "TV.C07.mut_path_cut_sound", "the same with any cut-off: a returned track is a real route of the current network weighing the reported value, which is >= the current distance and equal to it unless it exceeds the cut-off"),
+        (M, "TV.C07.mut_geometry_chained", "T3 on the modified network: if NOW every polyline joins the current positions of its ends, the returned geometry = current pos s followed by the used edges' current polylines along the travel, each minus its first vertex; ends at the current pos t; no analytical feature"),
+        (M, "TV.C07.orientation_attribute_not_read", "getEdge(i).orientation = x on a built network changes an attribute that only addEdge reads: every later call (routing, modification, addEdge) returns exactly what it would have returned without the assignment"),
+        (M, "TV.C07.path_any_history", "ANY history, orientation assignments included: shortest_path(s,t,cut) = shortest_path on a fresh network holding the content that the same history without its orientation assignments produces (current weights, polylines, coordinates; each edge with the orientation it was added with)"),
+        (M, "TV.C07.mut_never_diverges", "in any sequence of calls on a new network (modifications, orientation assignments, stopped searches, run_routing_backward on flags older than the last modification, unknown nodes) no shortest_path / run_routing_backward loops for ever"),
+        (M, "TV.C07.path_after_orientation_assignment", "after getEdge(i).orientation = x a shortest_path still answers for the content before the assignment (the orientations the edges were added with)"),
     ]
     partial = []
     open_statements = ["Track.copy is modelled as the identity on (points, feature table): that the returned track shares no Obs / coordinate object with the network is not a theorem; the harness checks it by moving the points of every returned track (scribble stream) and validating the later answers of the session",
-                       "float rounding of sums of non-dyadic weights is outside the theorems (weights: a linearly ordered additive commutative monoid; the correspondence streams use integers and dyadic rationals, exact in float arithmetic)"]
+                       "arithmetic: every theorem holds for any addition satisfying WalkAdd (x <= x + w for w >= 0, and + monotone on the right; associativity, commutativity and cancellation are not used, see the R4 example), i.e. for the sums as the code rounds them; that IEEE-754 double addition satisfies WalkAdd is not proved in Lean (Float is opaque) — the float streams run the model at Float bit for bit",
+                       "run_routing_backward on flags older than the last modification of the network (old antecedents, new weights / polylines): nothing is stated; proved: the loop ends (mut_never_diverges); what it returns is compared with the model only",
+                       "modifications through Network.simplify / toENUCoords / toGeoCoords (they replace every edge geometry / node coordinate) and routing on a sub_network (a second Network sharing the Node and Edge objects) are not in the model; the library has no call that removes an edge or a node",
+                       "getEdge(i).orientation = x on a built network: proved NOT to be read by routing (orientation_attribute_not_read) — the property read with the current attribute fails there; proposed finding %s (findings/C07.json), its inputs are generated once it is listed" % ORI_FROZEN]
     modelled = ("Network.addNode / addEdge (NODES with first registration winning, EDGES, NEXT_EDGES filled incrementally; proved to give the model's adjacency); "
                 "Network.run_routing_forward (as for C06) with __correctInputNode (node by id / Node object) and __resetFlags on the flags left by earlier searches; "
                 "run_routing_backward (walk of antecedent / antecedent_edge, polyline reversed when e.source != node, appended minus its first vertex, final reverse, "
                 "path = node ids reversed) written with the Track operators of the C04 model (Track(), addObs, copy, reverse, `>`, `+` with its feature-name test) "
-                "and proved equal to the list-level walk; shortest_path, shortest_distance (pair and list form), output_dict, and sequences of these calls on one Network object")
+                "and proved equal to the list-level walk; shortest_path, shortest_distance (pair and list form), output_dict, and sequences of these calls on one Network object; "
+                "the Network object as a state machine that is built and MODIFIED by the calls themselves (Model/GraphMut.lean): NODES / EDGES / NEXT_EDGES / edge geometries / node coordinates / "
+                "routing flags (and which nodes carry them) / output_dict as state, addNode, addEdge (also after searches), getEdge(i).weight / .orientation / .geom = ..., getNode(v).coord = ..., "
+                "the forward pass written over NEXT_EDGES[pere] and EDGES[edge_id] as the code has it (weights read at relaxation time, adjacency as addEdge filled it), KeyError / AttributeError of calls "
+                "naming unregistered / never-searched nodes")
     trusted = ["Track.copy (copy.deepcopy) is the identity on the model's immutable values",
                "priority_dict is modelled as extract-min by (priority, node id) (C06 proves the explicit heap equal to it)"]
-    rule = ("the C06 graph space (all edge lists of length <= 2 on <= 3 nodes in quick, + all 3-edge multisets in thorough; random to 12 nodes / 40 edges, parallel edges of equal and of "
+    rule = (("the C06 graph space (all edge lists of length <= 2 on <= 3 nodes in quick, + all 3-edge multisets in thorough; random to 12 nodes / 40 edges, parallel edges of equal and of "
             "different weight) with node positions on an integer lattice (some coincident) and edge polylines of 1-5 vertices from the source's to the target's position (straight, bent, repeated "
             "consecutive vertices, coming back over an end point, over another node, closed loops); a 'loose' stream whose polylines ignore the node positions (0-4 vertices; geometry compared "
             "with the model only). Networks built with int or str ids (NODES order, stored positions, NEXT_EDGES and edge ends compared with the model's addNode/addEdge), with the caller's Node objects / fresh Node objects per edge / nodes created by addEdge / Node objects of an already registered id carrying other coordinates / through a CSV file read by NetworkReader.readFromFile (str ids, abs_curv feature on every geometry); edge geometries "
-            "with or without an analytical feature; in a third of the random cases the caller moves the points of every track it is given (aliasing with the network would show in later answers). Calls: every ordered pair by shortest_path on ONE object; for the same enumerated graphs a sequence in which every ordered pair "
+            "with or without an analytical feature; every node and polyline vertex has an altitude determined by its (x, y), which the returned geometry must carry; in a third of the random cases the caller moves the points of every track it is given (aliasing with the network would show in later answers). Calls: every ordered pair by shortest_path on ONE object; for the same enumerated graphs a sequence in which every ordered pair "
             "of queries is consecutive; random sessions mixing shortest_path, shortest_distance (pair / list), run_routing_forward, run_routing_backward (several targets after one search, before "
             "any search), nodes by id / own object / fresh object, output_dict, source = target, unreachable after reachable, cut-offs below / at / above the distances. A float stream (kind sess-float): weights = polyline lengths / multiples of 0.1 / uniform reals, model instantiated at Float and compared bit for bit, "
             "oracle in exact rationals with 1e-9 relative tolerance. "
-            "non-trivial = some call returns a path; tags count zero-weight edges, edges traversed against their stored direction, ties, op kinds")
+            "Networks MODIFIED between the calls (kinds mut / mut-float, a fifth of the quick run): between routing calls the weight of an edge is assigned (through getEdge / net[k] / EDGES; half of the "
+            "time an edge of a current optimal route; raised, lowered, zero), a polyline is replaced or moved in place, a node is moved (new coordinate object or in place, usually together with the polylines "
+            "that end there), edges are added (parallel ones, to nodes the network did not have, with Node objects carrying other coordinates), nodes are added; the model runs the whole life of the object "
+            "(build included) as one sequence of calls and the final content read back through the getters is compared; the oracle keeps its own replay of the content and judges every query against the "
+            "content of that moment (geometry chain required whenever the polylines on the route join the positions of that moment); run_routing_backward on flags older than the last modification is "
+            "compared with the model only. Orientation assignments on a built network are generated only once the finding %s is listed. "
+            "non-trivial = some call returns a path; tags count zero-weight edges, edges traversed against their stored direction, ties, op kinds, kinds of modification, whether a weight assignment changed a queried distance") % ORI_FROZEN)
 
     def setup(self):
         self.mods = nc.import_mods()
@@ -381,6 +671,8 @@ class P(Prop):
     def exhaustive_scopes(self, tier):
         s = ["all edge lists (ordered) of length 0..2 on 1..3 nodes, weights {0,1,2}, orientations {-1,0,1} (8067 graphs), one random lattice geometry each, all ordered pairs by shortest_path on one Network object",
              "the same 8067 graphs: a sequence of shortest_path calls on one object in which EVERY ordered pair of queries (s1,t1),(s2,t2) is consecutive (82 calls for 3 nodes)"]
+        s.append("the same graphs with at least one edge: every ordered pair, then the weight of one edge is assigned another value of {0,1,2} on the built network, every ordered pair again (%s)"
+                 % ("every edge and every other value: 32004 sessions" if tier == "thorough" else "one random edge and value per graph: 8064 sessions"))
         if tier == "thorough":
             s.append("all multisets of 3 edges on 1..3 nodes over the same alphabet (100482 multigraphs), edge / node insertion order shuffled, one random geometry each")
         return s
@@ -422,6 +714,15 @@ class P(Prop):
                     out.append(self.with_geometry(rng, {"kind": "ex", "n": n, "order": order, "e": list(e)}))
                     if True:
                         out.append(self.with_geometry(rng, {"kind": "ex-seq", "seq": "euler", "n": n, "order": order, "e": list(e)}))
+                    # the same graph, every ordered pair, then ONE edge gets another weight on the built network, every pair again
+                    al = nc.alphabet(n)
+                    variants = [(j, w) for j in range(k) for w in (0, 1, 2) if w != al[e[j]][2]]
+                    if tier == "quick" and variants:
+                        variants = [rng.choice(variants)]
+                    for (j, w) in variants:
+                        pairs = [["P", str(s_), str(t_), "none", 0] for s_ in range(n) for t_ in range(n)]
+                        out.append(self.with_geometry(rng, {"kind": "ex-mut", "mut": 1, "n": n, "order": order, "e": list(e),
+                                                            "ops": pairs + [["W", j, w, rng.choice([0, 1, 2])]] + pairs}))
         if tier == "thorough":
             for n in (1, 2, 3):
                 for e in nc.enum_graphs(n, 3, ordered=False):
@@ -467,7 +768,47 @@ class P(Prop):
             if rng.random() < 0.6:
                 g["ops"] = random_ops(rng, g["n"], d, fl=True)
             out.append(g)
+        nmut, nmutf = (3000, 600) if tier == "quick" else (60000, 12000)
+        for k in range(nmut + nmutf):
+            out.append(self.mut_case(rng, fl=(k >= nmut)))
         return out
+
+    def mut_case(self, rng, fl=False):
+        """a network that is modified between the routing calls"""
+        if rng.random() < 0.8:
+            g = nc.random_graph(rng, small=True)
+            if g["n"] == 1 and rng.random() < 0.7:
+                g = nc.random_graph(rng, nmax=5, emax=8)
+        else:
+            g = nc.random_graph(rng, nmax=rng.choice([5, 8]), emax=rng.choice([8, 16]))
+        g["kind"] = "mut-float" if fl else "mut"
+        g["mut"] = 1
+        if fl:
+            g["float"] = 1
+        if rng.random() < 0.3:
+            add_parallels(rng, g)
+        self.with_geometry(rng, g, ext=True)
+        if fl:
+            self.float_weights(rng, g)
+        used = {x for e in g["edges"] for x in (e[1], e[2])}
+        iso = [v for v in range(g["n"]) if v not in used]
+        if iso and rng.random() < 0.6:
+            g["late"] = sorted(rng.sample(iso, rng.randint(1, len(iso))))
+        g["ops"] = random_mut_ops(rng, g, fl=fl, with_ori=self.listed(ORI_FROZEN))
+        return g
+
+    def listed(self, cls):
+        """is `cls` a listed finding of known_findings.json (read, never written)? Inputs of a finding's class are generated
+        only then: the engine excuses a failing case only when its class is listed (proposal: findings/C07.json)"""
+        if getattr(self, "_listed", None) is None:
+            import json
+            try:
+                with open(os.path.join(os.path.dirname(os.path.dirname(os.path.dirname(os.path.abspath(__file__)))), "known_findings.json")) as fh:
+                    ents = json.load(fh).get("entries", [])
+                self._listed = {e.get("class") for e in ents if e.get("property") == "C07" and e.get("status") == "finding"}
+            except Exception:
+                self._listed = set()
+        return cls in self._listed
 
     def float_weights(self, rng, g):
         """float weights whose sums round: the length of the edge's polyline (what NetworkReader takes when the file has no
@@ -495,18 +836,34 @@ class P(Prop):
                 "m": len(edges) if len(edges) <= 3 else "4-10" if len(edges) <= 10 else "11-40",
                 "zero_weight": any(nc.num(e[3]) == 0 for e in edges), "reverse_only_edge": any(e[4] < 0 for e in edges),
                 "tie": ties, "line_sizes": "".join(sorted({str(len(l)) for l in case["lines"]})),
-                "cut": any(o[0] != "B" and o[3] != "none" for o in ops),
+                "cut": any(o[0] in "PDF" and o[3] != "none" for o in ops),
+                "modifications": "".join(sorted({o[0] for o in ops if o[0] in MUTATIONS})) or "-", "late_nodes": bool(case.get("late")),
+                "weight_change_moves_a_distance": self.weight_matters(case) if case.get("mut") else "-",
                 "ids": case.get("ids", "int"), "build": case.get("build", "plain"), "loose": bool(case.get("loose")), "af": bool(case.get("af")), "scribble": bool(case.get("scribble")), "recoord": bool(case.get("recoord")), "float_weights": bool(case.get("float")),
                 "parallel_equal_weight": par, "repeated_vertex": rep,
                 "op_kinds": "".join(sorted({o[0] for o in ops})),
-                "node_forms": "".join(sorted({(a[0] if a[0] in "of" else "i") for o in ops for a in o[1:3] if isinstance(a, str) and a not in ("-", "none")})),
+                "node_forms": "".join(sorted({(a[0] if a[0] in "of" else "i") for o in ops if o[0] in "PDFB" for a in o[1:3] if isinstance(a, str) and a not in ("-", "none")})),
                 "nops": len(ops) if len(ops) <= 3 else "4-9" if len(ops) <= 9 else "10-20" if len(ops) <= 20 else ">20"}
 
+    def weight_matters(self, case):
+        """some shortest_path call asks for a pair whose distance a weight assignment has changed since the build"""
+        tl = timeline(case)
+        if not tl:
+            return False
+        d0 = tl[0][0].d
+        for o, (view, _) in zip(ops_of(case), tl):
+            if o[0] == "P" and any(m[0] == "W" for m in ops_of(case)) and view.version:
+                s, t = idx(o[1]), idx(o[2])
+                if s != t and view.d[s][t] is not None and view.d[s][t] != d0[s][t]:
+                    return True
+        return False
+
     def nontrivial(self, case):
-        n = case["n"]
-        d = nc.floyd_warshall(n, nc.expand(case))
         last = None
-        for o in ops_of(case):
+        for o, (view, stale) in zip(ops_of(case), timeline(case)):
+            if o[0] in MUTATIONS:
+                continue
+            d = view.d
             if o[0] == "B":
                 if last is not None and last != idx(o[1]) and d[last][idx(o[1])] is not None:
                     return True
@@ -532,7 +889,8 @@ class P(Prop):
                 break
             used.append(einv.get(node.antecedent_edge, repr(node.antecedent_edge)))
             node = node.antecedent
-        res = {"p": {"path": path, "xy": xy, "edges": used[::-1], "af": list(trk.getListAnalyticalFeatures())}, "label": label}
+        res = {"p": {"path": path, "xy": xy, "edges": used[::-1], "af": list(trk.getListAnalyticalFeatures()),
+                     "z": [nc.tok(Fraction(o.position.getZ())) for o in trk]}, "label": label}
         if case.get("scribble"):
             # what a caller may do with a track it was given: move its points, empty its node list. If the track shared
             # objects with the network (edge geometries, node coordinates) the later answers of the session show it.
@@ -553,7 +911,7 @@ class P(Prop):
             einv = {eid(e[0]): e[0] for e in nc.expand(case)}
             od = {}
             # the network as addNode / addEdge left it
-            built = {"next": [[einv.get(i, repr(i)) for i in net.NEXT_EDGES[nid(v)]] for v in range(n)],
+            built = None if case.get("mut") else {"next": [[einv.get(i, repr(i)) for i in net.NEXT_EDGES[nid(v)]] for v in range(n)],
                      "pos": [[nc.tok(Fraction(net.NODES[nid(v)].coord.getX())), nc.tok(Fraction(net.NODES[nid(v)].coord.getY()))] for v in range(n)],
                      "order": [inv.get(k, repr(k)) for k in net.NODES.keys()],
                      "ends": [[einv.get(k, repr(k)), inv.get(e.source.id, repr(e.source.id)), inv.get(e.target.id, repr(e.target.id)), e.orientation,
@@ -562,14 +920,31 @@ class P(Prop):
             def arg(a):
                 if a == "-":
                     return None
-                if a[0] == "o":
+                if a[0] == "o" and nid(int(a[1:])) in net.NODES:
                     return net.NODES[nid(int(a[1:]))]
+                if a[0] == "o":
+                    return mk(int(a[1:]))
                 if a[0] == "f":
                     return mk(int(a[1:]))
                 return nid(int(a))
 
+            mut = bool(case.get("mut"))
+            fl = bool(case.get("float"))
             for op in ops:
                 kind = op[0]
+                if kind in MUTATIONS:
+                    out.append({"op": kind, "r": self.modify(net, case, op, nid, eid, inv, einv)})
+                    continue
+                if mut:
+                    # a call that names a node the network does not have raises KeyError (only shrunk cases do that)
+                    missing = [a for a in op[1:3] if isinstance(a, str) and a != "-" and nid(idx(a)) not in net.NODES]
+                    if missing:
+                        try:
+                            self.call(net, op, arg, od, fl)
+                            out.append({"op": "F"} if kind == "F" else {"op": kind, "err": "no KeyError"})
+                        except KeyError:
+                            out.append({"op": kind, "err": "key"})
+                        continue
                 if kind == "B":
                     try:
                         trk = net.run_routing_backward(arg(op[1]))
@@ -596,10 +971,90 @@ class P(Prop):
                     net.run_routing_forward(arg(op[1]), arg(op[2]), **kw)
                     out.append({"op": "F"})
             dct = sorted([inv.get(k[0], -1), inv.get(k[1], -1), nc.tok(Fraction(v))] for k, v in od.items())
+            if mut:
+                # the content of the network after the calls, read back through its public getters
+                xy = lambda c: [nc.tok(Fraction(c.getX())), nc.tok(Fraction(c.getY()))]
+                ids = list(net.getNodesId())
+                built = {"next": [[einv.get(i, repr(i)) for i in net.getNextEdges(nid(v))] if nid(v) in ids else [] for v in range(n)],
+                         "pos": [xy(net.getNode(nid(v)).coord) if nid(v) in ids else None for v in range(n)],
+                         "order": [inv.get(k, repr(k)) for k in ids],
+                         "edges": [[einv.get(k, repr(k)), inv.get(net.getEdge(k).source.id, -1), inv.get(net.getEdge(k).target.id, -1),
+                                    nc.tok(Fraction(net.getEdge(k).weight)), net.getEdge(k).orientation] for k in net.getEdgesId()],
+                         "geoms": [[xy(o.position) for o in net.getEdge(k).geom] for k in net.getEdgesId()]}
         return {"ops": out, "dict": dct, "net": built}
+
+    def call(self, net, op, arg, od, fl):
+        kw = {}
+        if op[0] != "B":
+            if op[3] != "none":
+                kw["cut"] = cutpy(op[3], fl)
+            if op[4]:
+                kw["output_dict"] = od
+        if op[0] == "B":
+            return net.run_routing_backward(arg(op[1]))
+        f = {"P": net.shortest_path, "D": net.shortest_distance, "F": net.run_routing_forward}[op[0]]
+        return f(arg(op[1]), arg(op[2]), **kw)
+
+    def modify(self, net, case, op, nid, eid, inv, einv):
+        """a modification of the built network, the way a user of the library makes it"""
+        Network, Node, Edge, Track, Obs, ENUCoords, ObsTime = self.mods
+        kind = op[0]
+        inplace_ok = case.get("build") != "reader"     # NetworkReader's nodes SHARE their coordinate object with an edge geometry
+        mkc = lambda v, x, y: Node(nid(v), ENUCoords(x, y, alt(x, y)))
+
+        def track(line):
+            tr = Track([Obs(ENUCoords(x, y, alt(x, y)), ObsTime()) for (x, y) in line])
+            if case.get("af") and len(line) > 0:
+                tr.createAnalyticalFeature("speed", 1.0)
+            return tr
+        try:
+            if kind == "N":
+                net.addNode(mkc(op[1], op[2], op[3]))
+                inv.setdefault(nid(op[1]), op[1])
+            elif kind == "E":
+                i, s, t, w, o = op[1]
+                if net.hasEdge(eid(i)):
+                    return "err"
+                einv[eid(i)] = i
+                e = Edge(eid(i), track(op[2]))
+                e.orientation = o
+                e.weight = nc.pynum(w)
+                net.addEdge(e, mkc(s, op[3][0], op[3][1]), mkc(t, op[3][2], op[3][3]))
+            elif kind == "W":
+                if op[3] == 1:
+                    e = net[list(net.getEdgesId()).index(eid(op[1]))]
+                elif op[3] == 2:
+                    e = net.EDGES[eid(op[1])]
+                else:
+                    e = net.getEdge(eid(op[1]))
+                e.weight = nc.pynum(op[2])
+            elif kind == "O":
+                net.getEdge(eid(op[1])).orientation = op[2]
+            elif kind == "G":
+                e = net.getEdge(eid(op[1]))
+                if op[3] == 1 and inplace_ok and e.geom.size() == len(op[2]):
+                    for o, (x, y) in zip(e.geom, op[2]):
+                        o.position.setX(x)
+                        o.position.setY(y)
+                        o.position.setZ(alt(x, y))
+                else:
+                    e.geom = track(op[2])
+            elif kind == "C":
+                nd = net.getNode(nid(op[1]))
+                if op[4] == 1 and inplace_ok:
+                    nd.coord.setX(op[2])
+                    nd.coord.setY(op[3])
+                    nd.coord.setZ(alt(op[2], op[3]))
+                else:
+                    nd.coord = ENUCoords(op[2], op[3], alt(op[2], op[3]))
+        except (KeyError, ValueError):
+            return "key"
+        return "ok"
 
     # ---------------------------------------------------------------- model
     def requests(self, case):
+        if case.get("mut"):
+            return self.mut_requests(case)
         edges = nc.expand(case)
         flat = lambda pts: ",".join("%d,%d" % (x, y) for (x, y) in pts) if pts else "e"
         pos = ";".join(flat([p]) for p in case["pos"]) if case["pos"] else "_"
@@ -620,7 +1075,94 @@ class P(Prop):
                 "C07.%ssession %d %s %s %s %s %d %s" % ("f" if fl else "", case["n"], ",".join(str(v) for v in eff_order(case)), etok, pos, lines,
                                                        1 if (case.get("af") or case.get("build") == "reader") else 0, ";".join(ops) if ops else "_")]
 
+    def mut_requests(self, case):
+        """the whole life of the network as ONE sequence of calls on an empty object: the build, then the session"""
+        fl = bool(case.get("float"))
+        flat = lambda pts: ",".join("%d,%d" % (x, y) for (x, y) in pts) if pts else "e"
+        wt = (lambda w: fbits(float(w))) if fl else (lambda w: nc.tok(nc.num(w)))
+        ct = lambda c: c if (c == "none" or not fl) else fbits(float(c))
+        a = lambda x: x.replace("f", "o")
+        afc = bool(case.get("af"))
+        calls = build_calls(case)
+        reader = case.get("build") == "reader"
+        ops = ["N:%d:%d,%d" % (v, x, y) for (v, x, y) in calls["pre"]]
+        for k, (i, s, t, w, o) in enumerate(nc.expand(case)):
+            l = case["lines"][k]
+            ops.append("E:%d,%d,%d,%s,%d:%s:%s:%d" % (i, s, t, wt(w), o, ",".join(str(x) for x in calls["ends"][k]), flat(l),
+                                                      1 if (reader or afc) and len(l) > 0 else 0))
+        ops += ["N:%d:%d,%d" % (v, x, y) for (v, x, y) in calls["post"]]
+        for o in ops_of(case):
+            k = o[0]
+            if k == "N":
+                ops.append("N:%d:%d,%d" % (o[1], o[2], o[3]))
+            elif k == "E":
+                i, s, t, w, ori = o[1]
+                ops.append("E:%d,%d,%d,%s,%d:%s:%s:%d" % (i, s, t, wt(w), ori, ",".join(str(x) for x in o[3]), flat(o[2]), 1 if afc and len(o[2]) > 0 else 0))
+            elif k == "W":
+                ops.append("W:%d:%s" % (o[1], wt(o[2])))
+            elif k == "O":
+                ops.append("O:%d:%d" % (o[1], o[2]))
+            elif k == "G":
+                ops.append("G:%d:%s:%d" % (o[1], flat(o[2]), 1 if afc and len(o[2]) > 0 else 0))
+            elif k == "C":
+                ops.append("C:%d:%d,%d" % (o[1], o[2], o[3]))
+            elif k == "B":
+                ops.append("B:%s" % a(o[1]))
+            else:
+                ops.append("%s:%s:%s:%s:%d" % (k, a(o[1]), a(o[2]), ct(o[3]), 1 if o[4] else 0))
+        return ["C07.%smsession %d %s" % ("f" if fl else "", case["n"], ";".join(ops))]
+
+    def mut_decode(self, case, replies):
+        r = replies[0]
+        if r == "bad-request":
+            raise ValueError("bad-request")
+        outs, dct, content = r.split("#")
+        calls = build_calls(case)
+        nbuild = len(calls["pre"]) + len(nc.expand(case)) + len(calls["post"])
+        ops = ops_of(case)
+        fl = bool(case.get("float"))
+        num = (lambda x: x if x == "none" else nc.tok(Fraction(bitsf(x)))) if fl else (lambda x: x)
+        items = [] if outs == "_" else outs.split("|")
+        if len(items) != nbuild + len(ops):
+            raise ValueError("%d outputs for %d calls" % (len(items), nbuild + len(ops)))
+        if any(x != "ok" for x in items[:nbuild]):
+            raise ValueError("the model refuses a call of the build: %s" % items[:nbuild])
+        res = []
+        for op, item in zip(ops, items[nbuild:]):
+            if op[0] in MUTATIONS:
+                res.append({"op": op[0], "r": item})
+            elif item in ("attr", "key"):
+                res.append({"op": op[0], "err": item})
+            elif item == "ok":
+                res.append({"op": "F"})
+            elif item.startswith("d="):
+                res.append({"op": "D", "val": num(item[2:])})
+            elif item.startswith("l="):
+                res.append({"op": "D", "vals": [] if item[2:] == "_" else [num(x) for x in item[2:].split(",")]})
+            else:
+                p, label = item.split("@")
+                label = num(label)
+                if p in ("none", "diverge", "features"):
+                    res.append({"op": op[0], "p": p, "label": label})
+                else:
+                    nodes, pts = p.split(":")
+                    q = [] if pts == "_" else pts.split(",")
+                    res.append({"op": op[0], "label": label,
+                                "p": {"path": [int(x) for x in nodes.split(",")], "xy": [[q[i], q[i + 1]] for i in range(0, len(q), 2)]}})
+        entries = [] if dct == "_" else [e.split(",") for e in dct.split(";")]
+        nx, ps, od_, es, gs = content.split("!")
+        lst = lambda x: [] if x == "_" else x.split(";")
+        pairs = lambda l: [] if l == "e" else [[q[i], q[i + 1]] for q in [l.split(",")] for i in range(0, len(q), 2)]
+        built = {"next": [[] if l == "e" else [int(x) for x in l.split(",")] for l in lst(nx)],
+                 "pos": [None if l == "-" else l.split(",") for l in lst(ps)],
+                 "order": [] if od_ == "_" else [int(x) for x in od_.split(",")],
+                 "edges": [[int(f[0]), int(f[1]), int(f[2]), num(f[3]), int(f[4])] for f in (e.split(",") for e in lst(es))],
+                 "geoms": [pairs(l) for l in lst(gs)]}
+        return {"ops": res, "dict": sorted([int(e[0]), int(e[1]), num(e[2])] for e in entries), "net": built}
+
     def decode(self, case, replies):
+        if case.get("mut"):
+            return self.mut_decode(case, replies)
         r = replies[1]
         if r == "bad-request" or replies[0] == "bad-request":
             raise ValueError("bad-request")
@@ -675,25 +1217,40 @@ class P(Prop):
         n = case["n"]
         ops = ops_of(case)
         fl = bool(case.get("float"))
-        memo = {}
         nx, ny = impl_out["net"], model_out["net"]
-        for key in ("next", "pos", "order"):
-            if nx[key] != ny[key]:
-                return "network as built, %s: impl=%s model=%s" % (key, nx[key], ny[key])
-        want = [[e[0], e[1], e[2], e[4], True] for e in nc.expand(case)]
-        if nx["ends"] != want:
-            return "network as built: edges (id, source, target, orientation, ends are the registered nodes) %s, given %s" % (nx["ends"], want)
+        if case.get("mut"):
+            for key in ("next", "pos", "order", "edges", "geoms"):
+                if nx[key] != ny[key]:
+                    return "content of the network after the calls (read back through the getters), %s: impl=%s model=%s" % (key, nx[key], ny[key])
+        else:
+            for key in ("next", "pos", "order"):
+                if nx[key] != ny[key]:
+                    return "network as built, %s: impl=%s model=%s" % (key, nx[key], ny[key])
+            want = [[e[0], e[1], e[2], e[4], True] for e in nc.expand(case)]
+            if nx["ends"] != want:
+                return "network as built: edges (id, source, target, orientation, ends are the registered nodes) %s, given %s" % (nx["ends"], want)
+        tl = timeline(case, frozen_ori=True)      # model and implementation both route by NEXT_EDGES as addEdge filled it
+        view = [None]
 
         def dist():
-            if "d" not in memo:
-                memo["e"] = nc.expand(case)
-                memo["d"] = nc.floyd_warshall(n, memo["e"])
-            return memo["e"], memo["d"]
+            return view[0].edges, view[0].d
         last = None
         for k, (op, x, y) in enumerate(zip(ops, a, b)):
             bad = "op %d %s: impl=%s model=%s" % (k, op, x, y)
+            view[0], stale = tl[k]
+            if op[0] in MUTATIONS:
+                if x != y:
+                    return bad
+                continue
+            if "err" in x or "err" in y:
+                if x != y:
+                    return bad
+                if x["err"] == "key":
+                    last = None
+                continue
             if op[0] != "B":
                 last = (idx(op[1]), None if op[2] == "-" else idx(op[2]), cutval(op[3], fl))
+            strict = op[0] == "B" and stale       # old flags on the content of now: nothing to validate, the model must agree
             if "p" not in x or "p" not in y:
                 if x == y:
                     continue
@@ -703,8 +1260,8 @@ class P(Prop):
                     if "val" in x:           # free only beyond the cut-off
                         if d[s0][t0] is not None and not within(d[s0][t0], c0, fl) and x["val"] != "none":
                             continue
-                    elif len(x["vals"]) == len(y["vals"]) == n:
-                        order = eff_order(case)
+                    elif len(x["vals"]) == len(y["vals"]) == len(view[0].order):
+                        order = view[0].order if case.get("mut") else eff_order(case)
                         if all(xv == yv or (d[s0][v] is not None and not within(d[s0][v], c0, fl)) for v, xv, yv in zip(order, x["vals"], y["vals"])):
                             continue
                 return bad
@@ -714,7 +1271,7 @@ class P(Prop):
             agree = (px == py) or (isinstance(px, dict) and isinstance(py, dict) and px["path"] == py["path"] and px["xy"] == py["xy"])
             if agree and x["label"] == y["label"]:
                 continue
-            if not last:
+            if not last or strict:
                 return bad
             edges, d = dist()
             s0, t0, c0 = last
@@ -728,7 +1285,7 @@ class P(Prop):
                 continue
             if not isinstance(px, dict):
                 return bad
-            msg, total = self.check_route(case, edges, s0, t, px)
+            msg, total = self.check_route(case, view[0], s0, t, px)
             if msg is not None or x["label"] == "none" or not same(Fraction(x["label"]), total, fl):
                 return bad
             if not complete:
@@ -738,6 +1295,9 @@ class P(Prop):
             return bad
         if impl_out["dict"] != model_out["dict"]:
             bad = "output_dict: impl=%s model=%s" % (impl_out["dict"], model_out["dict"])
+            if case.get("mut"):
+                return bad        # entries of different moments in one dictionary: no validation, the model must agree
+            view[0] = tl[0][0] if tl else Content(case)
             edges, d = dist()
             A = {(e[0], e[1]): e[2] for e in impl_out["dict"]}
             B = {(e[0], e[1]): e[2] for e in model_out["dict"]}
@@ -755,16 +1315,22 @@ class P(Prop):
         return None
 
     # ---------------------------------------------------------------- oracle
-    def check_route(self, case, edges, s, t, x):
-        """x = {"path", "xy", "edges"} returned for a search from s and the target t: (what is wrong | None, total weight).
+    def check_route(self, case, view, s, t, x):
+        """x = {"path", "xy", "edges"} returned for a search from s and the target t, `view` = the Content of the network at
+        that moment: (what is wrong | None, total weight).
         A real walk from s to t along the recorded edges, each traversable in that direction; geometry = the position of s
         followed by those edges' polylines, each oriented along the travel and without its first vertex."""
-        byid = {e[0]: e for e in edges}
-        lines = {e[0]: case["lines"][k] for k, e in enumerate(edges)}
-        pos = case["pos"]
+        byid = {e[0]: e for e in view.edges}
+        lines = view.lines
+        pos = view.pos
         path, used = x["path"], x["edges"]
         if not path or path[0] != s or path[-1] != t:
             return "path %s does not go from %d to %d" % (path, s, t), None
+        zmsg = None          # reported after the planimetric checks (a displaced vertex is better described by those)
+        for (px, py), z in zip(x["xy"], x.get("z", [])):
+            if Fraction(z) != alt(Fraction(px), Fraction(py)):
+                zmsg = "the vertex (%s, %s) of the returned geometry has altitude %s, every vertex and node there was given %s" % (px, py, z, nc.tok(alt(Fraction(px), Fraction(py))))
+                break
         if len(used) != len(path) - 1:
             return "path %s has %d recorded edges" % (path, len(used)), None
         total = 0
@@ -783,10 +1349,14 @@ class P(Prop):
                 return "step %s->%s of path %s: edge %d (source %d, target %d, orientation %d) cannot be traversed in that direction" % (a, b, path, eid, es, et, o), None
             total += nc.num(w)
             options.append(opts)
-        if case.get("loose") or case.get("recoord"):
-            return None, total      # the polylines do not join the node positions / a node was given several positions: no chain to
-                                    # speak of (the geometry is compared with the model only)
         got = [[Fraction(px), Fraction(py)] for px, py in x["xy"]]
+        if (not all(view.joined(eid) for eid in used)) if case.get("mut") else (case.get("loose") or case.get("recoord")):
+            # some polyline on the way does not join the positions of its ends (at that moment) / a node was given several
+            # positions: no chain to speak of (the geometry is compared with the model only) — but the path still ends at the
+            # target's position
+            if not got or got[-1] != list(pos[t]):
+                return "geometry %s does not end at the target's position %s" % (x["xy"], pos[t]), None
+            return zmsg, (None if zmsg else total)
         ok = False
         for choice in itertools.islice(itertools.product(*options), 64):
             want = [list(pos[s])]
@@ -800,11 +1370,11 @@ class P(Prop):
                 x["xy"], path, used, want), None
         if got[0] != list(pos[s]) or got[-1] != list(pos[t]):
             return "geometry %s does not start at the source's position %s and end at the target's %s" % (x["xy"], pos[s], pos[t]), None
-        return None, total
+        return zmsg, (None if zmsg else total)
 
-    def check_pair(self, case, edges, d, s, t, x):
+    def check_pair(self, case, view, d, s, t, x):
         """x returned for (s,t), reachable, search complete for t: walk, optimal, geometry chained"""
-        msg, total = self.check_route(case, edges, s, t, x)
+        msg, total = self.check_route(case, view, s, t, x)
         if msg:
             return msg
         fl = bool(case.get("float"))
@@ -812,7 +1382,7 @@ class P(Prop):
             return "path %s via edges %s weighs %s, the shortest distance is %s" % (x["path"], x["edges"], float(total) if fl else nc.tok(total), float(d[s][t]) if fl else nc.tok(d[s][t]))
         return None
 
-    def check_result(self, case, edges, d, s, t, c, complete, o, what):
+    def check_result(self, case, view, d, s, t, c, complete, o, what):
         """the result `o` of a path request to t after a search from s with cut-off c; complete: the search was not
         stopped at another target (it ran to t, or to exhaustion / the cut-off)"""
         x = o["p"]
@@ -827,7 +1397,7 @@ class P(Prop):
         if complete and within(d[s][t], c, fl):
             if not isinstance(x, dict):
                 return "%s returns %s but the target is reachable at distance %s" % (what, x, nc.tok(d[s][t]))
-            m = self.check_pair(case, edges, d, s, t, x)
+            m = self.check_pair(case, view, d, s, t, x)
             if m:
                 return "%s: %s" % (what, m)
             if lab is None or not same(lab, d[s][t], fl):
@@ -837,7 +1407,7 @@ class P(Prop):
         # not require a path, nor an optimal one; but "a returned path is a real route": a walk, chained, its weights
         # summing to the value reported for the target
         if isinstance(x, dict):
-            m, total = self.check_route(case, edges, s, t, x)
+            m, total = self.check_route(case, view, s, t, x)
             if m:
                 return "%s: %s" % (what, m)
             if lab is None or not same(lab, total, fl):
@@ -846,28 +1416,48 @@ class P(Prop):
             return "%s returns %s" % (what, x)
         return None
 
-    def spec(self, case, out):
+    def classify(self, case, impl_out, msg):
+        """ORI_FROZEN: the case assigns the orientation attribute of an edge of the built network, and the oracle has nothing
+        to object once it reads every such edge with the orientation it was ADDED with (NEXT_EDGES is filled by addEdge and
+        never refreshed: `orientation_attribute_not_read`)."""
+        if isinstance(case, dict) and case.get("mut") and any(o[0] == "O" for o in ops_of(case)):
+            try:
+                if self.spec(case, impl_out, frozen_ori=True) is None:
+                    return ORI_FROZEN
+            except Exception:
+                return None
+        return None
+
+    def spec(self, case, out, frozen_ori=False):
         if "err" in out:
             if out["err"] == "err:Skipped":
                 return None     # not evaluated (see netcommon.time_limit); the cases that timed out are the failures
             return "the implementation failed: %s %s" % (out["err"], out.get("detail", ""))
         n = case["n"]
-        edges = nc.expand(case)
-        d = nc.floyd_warshall(n, edges)
         ops = ops_of(case)
         if len(out["ops"]) != len(ops):
             return "%d results for %d calls" % (len(out["ops"]), len(ops))
+        tl = timeline(case, frozen_ori)
         last = None
         for k, (op, o) in enumerate(zip(ops, out["ops"])):
             pre = "call %d: " % k if ("ops" in case or case.get("seq")) else ""
+            view, stale = tl[k]
+            if op[0] in MUTATIONS:
+                continue          # the statement is about what the routing calls return
+            if case.get("mut"):
+                pre += "[after %s] " % ", ".join(self.show_mut(m) for m in ops[:k] if m[0] in MUTATIONS) if view.version else ""
+                if o.get("err") == "key" or any(idx(a) not in view.pos for a in op[1:3] if isinstance(a, str) and a not in ("-", "none")):
+                    last = None   # a node the network does not have: nothing is stated
+                    continue
+            d = view.d
             if op[0] == "B":
-                if last is None:
-                    continue      # backward pass before any search: nothing is stated
+                if last is None or stale:
+                    continue      # backward pass before any search, or on a network modified since the search: nothing is stated
                 if "err" in o:
                     return "%srun_routing_backward(%s) after a search raised %s" % (pre, op[1], o["err"])
                 s0, t0, c0 = last
                 t = idx(op[1])
-                m = self.check_result(case, edges, d, s0, t, c0, t0 is None or t0 == t, o,
+                m = self.check_result(case, view, d, s0, t, c0, t0 is None or t0 == t, o,
                                       "%srun_routing_backward(%d) after the search from %d (target %s, cut %s)" % (pre, t, s0, t0, "none" if c0 is None else nc.tok(c0)))
                 if m:
                     return m
@@ -875,11 +1465,27 @@ class P(Prop):
             s, t, c = idx(op[1]), (None if op[2] == "-" else idx(op[2])), cutval(op[3], bool(case.get("float")))
             last = (s, t, c)
             if op[0] == "P":
-                m = self.check_result(case, edges, d, s, t, c, True, o,
+                if "err" in o:
+                    return "%sshortest_path(%d,%d) raised %s" % (pre, s, t, o["err"])
+                m = self.check_result(case, view, d, s, t, c, True, o,
                                       "%sshortest_path(%d,%d%s)" % (pre, s, t, "" if c is None else ",cut=%s" % nc.tok(c)))
                 if m:
                     return m
         return None
+
+    def show_mut(self, m):
+        k = m[0]
+        if k == "W":
+            return "weight of edge %d := %s" % (m[1], m[2])
+        if k == "O":
+            return "orientation of edge %d := %d" % (m[1], m[2])
+        if k == "G":
+            return "polyline of edge %d := %s" % (m[1], m[2])
+        if k == "C":
+            return "node %d moved to (%s,%s)" % (m[1], m[2], m[3])
+        if k == "E":
+            return "addEdge(%s)" % (m[1],)
+        return "addNode(%d)" % m[1]
 
     # ---------------------------------------------------------------- shrinking / search
     def shrink(self, case):
@@ -889,11 +1495,23 @@ class P(Prop):
                 yield dict(case, ops=ops[:k] + ops[k + 1:])
             for k, o in enumerate(ops):
                 simp = [o[0]] + [a.lstrip("of") if isinstance(a, str) and a[:1] in "of" else a for a in o[1:]]
+                if o[0] in MUTATIONS:
+                    # the plainest form of the modification: through getEdge / a new object, a two-vertex polyline
+                    plain = list(o)
+                    if o[0] in "WG" and o[3]:
+                        plain[3] = 0
+                    if o[0] == "C" and o[4]:
+                        plain[4] = 0
+                    if o[0] in "GE" and len(o[2]) > 2:
+                        plain[2] = [o[2][0], o[2][-1]]
+                    if plain != o:
+                        yield dict(case, ops=ops[:k] + [plain] + ops[k + 1:])
+                    continue
                 if o[0] != "B" and simp[4]:
                     simp[4] = 0
                 if simp != o:
                     yield dict(case, ops=ops[:k] + [simp] + ops[k + 1:])
-        for key in ("ids", "build", "af", "scribble", "recoord"):
+        for key in ("ids", "build", "af", "scribble", "recoord", "late"):
             if key in case:
                 yield {k: v for k, v in case.items() if k != key}
         if case.get("seq") == "euler":
